@@ -637,7 +637,14 @@ def translate(repo):
         private_reads = [{"attr": a, "read_by": [p for p, d, _ in props if a in d],
                           "assigned_only_in_init": a in init_only and a not in written_elsewhere}
                          for a in alldeps if a.startswith("_") and a not in statics]
+        # hidden memo attributes: written by a method (not __init__, not a property setter), not static and not a
+        # `_lazy_*` cache entry -- _clear_cache() never drops them, so a result memoised there survives the
+        # re-assignment of the attributes it was computed from
+        memo = sorted(set(e[1] for name, paths, _ in methods if not name.endswith(".setter") and "@" not in name
+                          for pth in paths for e in pth
+                          if e[0] in ("Assign", "Aug") and e[1] not in statics and not e[1].startswith("_lazy_")))
         side[cname] = {"module": classes[cname].module, "mro": an.mro, "static": statics,
+                       "memo_attrs": memo,
                        "private_nonstatic_reads": private_reads,
                        "props": {p: {"attrs": d, "lazy": l} for p, d, l in props},
                        "methods": {n: [[list(e) for e in p] for p in ps] for n, ps, _ in methods},
